@@ -3,7 +3,7 @@
    effects, and publish nothing. Value stability of the caches is C01's
    coherence theorem plus the read-discipline correspondence. *)
 From Coq Require Import List ZArith.
-From EosV Require Import model.World model.Ops proofs.Misc_p.
+From EosV Require Import model.World model.Calc model.Ops proofs.Misc_p proofs.Reads_p.
 Import ListNotations.
 
 Theorem C09_reads_keep_world : forall x o,
@@ -18,9 +18,27 @@ Theorem C09_reads_do_not_influence_mutations : forall x x' o,
   s_w (fst (step x o)) = s_w (fst (step x' o)) /\ snd (step_ev x o) = snd (step_ev x' o).
 Proof. exact world_independent_of_derived. Qed.
 
+(* a read, of any depth of recursion, leaves the calculator's registers, the
+   penalty table and the modifier-id counter exactly as they were: only value
+   caches (and the error flag) can differ *)
+Theorem C09_read_keeps_registers : forall fuel w d i a,
+  let d' := fst (read_attr fuel w d i a) in
+  d_calcs d' = d_calcs d /\ d_next d' = d_next d /\ d_pen d' = d_pen d.
+Proof.
+  intros fuel w d i a d'. pose proof (read_keeps_registers fuel w d i a) as H. unfold dk in H.
+  fold d' in H. injection H as H1 H2 H3 H4. repeat split; assumption.
+Qed.
+Theorem C09_read_step_keeps_registers : forall x o,
+  is_read o = true ->
+  d_calcs (s_d (fst (step x o))) = d_calcs (s_d x) /\ d_pen (s_d (fst (step x o))) = d_pen (s_d x) /\
+  d_next (s_d (fst (step x o))) = d_next (s_d x).
+Proof. exact read_step_keeps_registers. Qed.
+
 Example C09_nonvacuous : is_read (ORead 1 2%Z) = true /\ is_read (OKeys 1) = true /\ is_read (OState 1 2%Z) = false.
 Proof. repeat split. Qed.
 
 Print Assumptions C09_reads_keep_world.
 Print Assumptions C09_reads_publish_nothing.
 Print Assumptions C09_reads_do_not_influence_mutations.
+Print Assumptions C09_read_keeps_registers.
+Print Assumptions C09_read_step_keeps_registers.
